@@ -86,6 +86,7 @@ where
     let mut apis: Vec<(&str, Out)> = vec![];
     apis.push(("read_as", classify(panicmon::catch(|| mk().and_then(|r| r.read_as::<S>())))));
     apis.push(("iter_shapes_as", classify(panicmon::catch(|| mk().and_then(|mut r| r.iter_shapes_as::<S>().collect::<Result<Vec<S>, Error>>())))));
+    if !f.shx.is_empty() {
     apis.push(("iter_shapes_as+shx", classify(panicmon::catch(|| mkx().and_then(|mut r| r.iter_shapes_as::<S>().collect::<Result<Vec<S>, Error>>())))));
     apis.push((
         "read_nth_shape_as",
@@ -102,6 +103,7 @@ where
             })
         })),
     ));
+    }
     if let Some(p) = &f.path {
         apis.push(("read_shapes_as(path)", classify(panicmon::catch(|| shapefile::read_shapes_as::<_, S>(p)))));
     }
@@ -196,9 +198,40 @@ pub fn run(ctx: &Ctx) -> Report {
         }
     }
 
+    // ---- foreign layouts (reference encoder output: unclosed rings, absent M blocks, empty
+    //      parts, arbitrary record numbers, trailing bytes), homogeneous files only
+    let mut foreign = 0u64;
+    if let Some(dir) = ctx.opt("foreign") {
+        let manifest = std::fs::read_to_string(format!("{}/files.jsonl", dir)).expect("harness: files.jsonl");
+        for line in manifest.lines() {
+            let get = |key: &str| -> Option<String> {
+                let pat = format!("\"{}\": ", key);
+                let i = line.find(&pat)? + pat.len();
+                let rest = &line[i..];
+                let end = rest.find(|c| c == ',' || c == '}').unwrap_or(rest.len());
+                Some(rest[..end].trim().trim_matches('"').to_string())
+            };
+            let typed: i32 = get("typed").and_then(|v| v.parse().ok()).unwrap_or(-1);
+            if typed < 1 {
+                continue;
+            }
+            let name = get("file").expect("harness: file key");
+            let shp = std::fs::read(format!("{}/{}.shp", dir, name)).expect("harness: read foreign shp");
+            let declared = (crate::rawshp::header_len_words(&shp).unwrap_or(50).max(50) as usize * 2).min(shp.len());
+            let n = crate::rawshp::walk(&shp[..declared]).len();
+            files.push(TestFile { t: typed, shp, shx: vec![], n, path: None });
+            foreign += 1;
+        }
+    }
+    rep.count("foreign_layout_files", foreign);
+
     // ---- the matrix
     for &s_code in &TYPES {
         for (fi, f) in files.iter().enumerate() {
+            // foreign-layout files: the diagonal and a rotating off-diagonal sample
+            if f.shx.is_empty() && f.t != 0 && s_code != f.t && (fi + s_code as usize) % 5 != 0 {
+                continue;
+            }
             for_type!(s_code, S => cell::<S>(s_code, f, fi, &mut rep, ctx));
         }
     }
